@@ -14,7 +14,7 @@ import (
 	"github.com/Eyevinn/mp4ff/mp4"
 )
 
-const cryptoRule = "cases = (a) function level: protect ranges of synthetic AVC/HEVC samples (NAL unit sizes around 0/1/15/16/17/91/92/107/108/111/112/123/127/128/1000 and clear runs > 65535), AppendProtectRange, CTR crypt over ranges, the CBC pattern cipher with every crypt/skip shape, IV increments incl. carries and wrap, AES blocks; (b) fragment level: clear fragments (real AVC/HEVC/AAC samples of the repository's segments, and synthetic AVC samples) x {cenc, cbcs} x IV {8, 16 bytes, ff..ff} x 1..3 fragments x extra boxes (tfxd uuid, free, unknown, roll sample group) encrypted by the library, checked against an independent crypto/cipher reference and CENC well-formedness, then decrypted and compared with the clear input; non-trivial = distinct case with at least one protected byte"
+const cryptoRule = "cases = (a) function level: protect ranges of synthetic AVC/HEVC samples (NAL unit sizes around 0/1/15/16/17/91/92/107/108/111/112/123/127/128/1000 and clear runs > 65535), cbcs protect ranges of generated AVC access units (parameter sets and I/P/B/SP/SI slice headers of every kind from the independent serialiser of the C15 harness, which knows each slice header's byte length: reference list override on/off, PPS L0/L1 defaults drawn apart, list modification, explicit weighted prediction, marking operations, field pictures, slice groups; slices below/at/above 127 bytes; AUD, SEI, in-band parameter sets, end-of-sequence units), AppendProtectRange, CTR crypt over ranges, the CBC pattern cipher with every crypt/skip shape, IV increments incl. carries and wrap, AES blocks; (b) fragment level: clear fragments (real AVC/HEVC/AAC samples of the repository's segments, synthetic AVC samples, and generated AVC tracks whose init segment is built from generated parameter sets) x {cenc, cbcs} x IV {8, 16 bytes, ff..ff} x 1..3 fragments x extra boxes (tfxd uuid, free, unknown, roll sample group) encrypted by the library, checked against an independent crypto/cipher reference and CENC well-formedness, then decrypted and compared with the clear input; (c) auxiliary information at the one-byte saiz limit: IV length {8, 16} x {cenc, cbcs} x one sample with 36..45 sub-sample entries (slices), at fragment level and as prot.enciv model lines: refused, or saiz entries = byte lengths of the senc entries as written and saio offset + sum(saiz) = end of senc (bytes parsed independently); non-trivial = distinct case with at least one protected byte"
 
 func init() {
 	props["C07"] = &propDef{rule: cryptoRule, gen: func(c *Ctx) { genCrypto(c, "C07") }, exec: execCrypto}
@@ -124,6 +124,8 @@ func execCryptoInner(op string, a []string) string {
 			return "err"
 		}
 		return showRanges(r)
+	case "cbcs.avcranges":
+		return execCbcsAvcRanges(a)
 	case "cenc.apr":
 		return showRanges(mp4.AppendProtectRange(nil, uint32(atoi(a[0])), uint32(atoi(a[1]))))
 	case "cenc.crypt":
@@ -225,6 +227,8 @@ type clearSource struct {
 	codec   string // avc | hevc | aac
 	init    []byte
 	samples []mp4.FullSample
+	hdrOf   func(nalu []byte) int // generated tracks (c0607es.go): independent slice header size of a video NAL unit
+	es      *esTrack
 }
 
 var clearSources []*clearSource
@@ -344,6 +348,7 @@ func genCrypto(c *Ctx, which string) {
 		q := fmt.Sprintf("cenc.ivinc %s %s %d", hx(iv), rs, len(s))
 		run(q)
 	}
+	genCbcsRanges(c, which) // cbcs sub-sample maps of generated access units with real slice headers (c0607es.go)
 	// AppendProtectRange, IV increments, AES blocks, cbcs pattern cipher
 	for it := 0; it < c.N(600, 8000); it++ {
 		a := []int{0, 1, 65534, 65535, 65536, 65537, 131070, 131071, 200000, c.R.Intn(300000)}[c.R.Intn(10)]
@@ -435,9 +440,15 @@ func genCrypto(c *Ctx, which string) {
 			}
 		}
 		synthetic := src.codec == "avc" && scheme == "cenc" && c.R.Intn(3) == 0
+		if c.R.Intn(3) == 0 { // a generated AVC track: parameter sets and slice headers of every kind (c0607es.go)
+			if es := esClearSource(c, 6); es != nil {
+				src, synthetic = es, false
+			}
+		}
 		fragCase(c, which, src, scheme, key, iv, nfr, extras, synthetic)
 	}
-	emitProtModel(c, which) // box bookkeeping of encrypt / decrypt against the Lean model (c0607model.go)
+	genAuxLimit(c, which, key) // samples whose auxiliary information is around the one-byte saiz limit (c0607es.go)
+	emitProtModel(c, which)    // box bookkeeping of encrypt / decrypt against the Lean model (c0607model.go)
 }
 
 func checkRangesShape(c *Ctx, codec string, s []byte, rs []mp4.SubSamplePattern, req string) {
@@ -655,6 +666,9 @@ func fragCase(c *Ctx, which string, src *clearSource, scheme string, key, iv []b
 						}
 					}
 				}
+				if kind, got, exp := checkAuxBytes(ebs, int(ivSize), len(fd.samples)); kind != "" {
+					fail("C07", kind, auxWhat[kind], got, exp)
+				}
 				iv16 := make([]byte, 16)
 				copy(iv16, curIV)
 				for i, es := range esamples {
@@ -669,6 +683,9 @@ func fragCase(c *Ctx, which string, src *clearSource, scheme string, key, iv []b
 					if src.codec != "aac" {
 						if which == "C07" && scheme == "cenc" {
 							checkRangesShape(c, src.codec, clear, ranges, desc+fmt.Sprintf(" sample %d %s", i, clip(hx(clear))))
+						}
+						if which == "C07" && scheme == "cbcs" && src.hdrOf != nil {
+							checkCbcsShape(c, clear, ranges, src.hdrOf, desc+fmt.Sprintf(" sample %d %s", i, clip(hx(clear))))
 						}
 						tot := 0
 						for _, r := range ranges {
